@@ -33,6 +33,8 @@ func (Area) Exec(input string) string {
 		return execWSUp(f)
 	case "glue":
 		return execGlue(f)
+	case "cr":
+		return execCR(f)
 	}
 	return "BADOP"
 }
@@ -114,9 +116,19 @@ var ctypeMenu = [][]string{
 
 var errCodes = []int{1, 2, 3, 4, 5, 6, 7, 8, 9, 10, 11, 12, 13, 14, 15, 16, 17, 99}
 
-func randEnd(r *rand.Rand) string {
+// invalidUTF8Msgs: status messages that are not valid UTF-8 (only for WebSocket cases, where the message ends up in the
+// close reason; over HTTP such a status cannot be marshaled and is rendered as plain text — error rendering, C10)
+var invalidUTF8Msgs = []string{
+	"bad \xff\xfe bytes", strings.Repeat("a", 107) + "\xe4\xb8", strings.Repeat("a", 106) + "\xf0\x9f\x98" + "zz", strings.Repeat("\x80", 150),
+	strings.Repeat("a", 105) + "\xed\xa0\x80\xed\xa0\x80", strings.Repeat("é", 50) + "\xc3" + strings.Repeat("世", 20),
+}
+
+func randEnd(r *rand.Rand, allowInvalidUTF8 bool) string {
 	if r.Intn(3) > 0 {
 		return "ok"
+	}
+	if allowInvalidUTF8 && r.Intn(4) == 0 {
+		return fmt.Sprintf("e%d:%s", common.Pick(r, errCodes), common.HexS(common.Pick(r, invalidUTF8Msgs)))
 	}
 	msg := common.Pick(r, []string{"boom", "", "something failed: x", "naïve ünïcödé message", strings.Repeat("long ", 30),
 		strings.Repeat("é", 70), strings.Repeat("a", 114) + "é", strings.Repeat("a", 113) + "é", strings.Repeat("a", 112) + "世",
@@ -152,7 +164,7 @@ func genHTTP(r *rand.Rand, maxMsgs int) string {
 	for i := 0; i < n; i++ {
 		msgs = append(msgs, randText(r, 300))
 	}
-	end := randEnd(r)
+	end := randEnd(r, false)
 	if !ss && end != "ok" {
 		msgs = nil
 	}
@@ -170,8 +182,12 @@ func contains(xs []string, s string) bool {
 	return false
 }
 
-func genWS(r *rand.Rand, maxFrames int) string {
+func genWS(r *rand.Rand, maxFrames int, sseAccept bool) string {
 	cs, ss := r.Intn(2) == 0, r.Intn(4) > 0
+	if sseAccept {
+		// a handshake that binds the response transcoder as SSE: server-streaming, not client-streaming, no marshaler named in Accept
+		cs, ss = false, true
+	}
 	body := r.Intn(4) > 0
 	if cs {
 		body = r.Intn(8) > 0
@@ -179,6 +195,15 @@ func genWS(r *rand.Rand, maxFrames int) string {
 	// request codec × response codec, chosen through Content-Type × Accept; a single letter sends
 	// no Accept header (response falls back to the request marshaler)
 	codec := common.Pick(r, []string{"j", "j", "j", "b", "jj", "bb", "jb", "jb", "bj", "bj"})
+	// one more Accept value on the handshake which matches no marshaler: SSE (binds the transcoder as SSE for a server-streaming,
+	// non-client-streaming method, is refused with 400 otherwise), */*, a quality list, upper case
+	variant := ""
+	if r.Intn(3) == 0 {
+		variant = common.Pick(r, []string{"e", "e", "e", "s", "q", "E"})
+	}
+	if sseAccept {
+		codec, variant = common.Pick(r, []string{"j", "j", "b"}), "e"
+	}
 	expectBinary := codec[0] == 'b'
 	nf := r.Intn(maxFrames + 1)
 	var frames []string
@@ -222,7 +247,7 @@ func genWS(r *rand.Rand, maxFrames int) string {
 	for i := 0; i < nr; i++ {
 		resp = append(resp, randText(r, 200))
 	}
-	end := randEnd(r)
+	end := randEnd(r, true)
 	closeMode := "srv"
 	readN := 0
 	if !terminal {
@@ -244,6 +269,10 @@ func genWS(r *rand.Rand, maxFrames int) string {
 		resp = nil
 	}
 	gap := common.Pick(r, []int{0, 0, 0, 100, 500, 2000})
+	if variant != "" {
+		note(fmt.Sprintf("ws accept-variant=%s cs=%v ss=%v", variant, cs, ss))
+		codec += "~" + variant
+	}
 	note(fmt.Sprintf("ws cs=%v ss=%v body=%v codec=%s terminal=%v close=%s", cs, ss, body, codec, terminal, closeMode))
 	return fmt.Sprintf("ws %s %s %s %s %s %s %s %d %s %d", b01(cs), b01(ss), b01(body), codec, joinList(frames), hexTexts(resp), end, gap, closeMode, readN)
 }
@@ -312,10 +341,20 @@ func (Area) Gen(r *rand.Rand, tier string, emit func(string)) {
 		}
 	}
 	note(fmt.Sprintf("glue sessions=%d", nGlue))
+	// closeReason / ValidUTF8 / ToValidUTF8 against the real functions: every malformed shape at every offset around
+	// the cut, then random byte strings with invalid sequences at the cut point
+	crEdges(emit)
+	nCR := 400
+	if tier == "thorough" {
+		nCR = 8000
+	}
+	for i := 0; i < nCR; i++ {
+		emit(genCR(r))
+	}
 	for i := 0; i < nHTTP; i++ {
 		emit(genHTTP(r, maxMsgs))
 	}
 	for i := 0; i < nWS; i++ {
-		emit(genWS(r, maxFrames))
+		emit(genWS(r, maxFrames, i%5 == 4))
 	}
 }
